@@ -14,15 +14,15 @@ import (
 
 // cenv evaluates contract expressions against a pre ("old") and a post state.
 type cenv struct {
-	e     *Env
-	pre   *State
-	post  *State
-	vars  map[string]Val
-	ct    *Contract
-	file  *ContractFile
-	inOld bool
-	bound map[string]Val // quantifier-bound variables
-	depth int
+	e       *Env
+	pre     *State
+	post    *State
+	vars    map[string]Val
+	ct      *Contract
+	file    *ContractFile
+	inOld   bool
+	bound   map[string]Val // quantifier-bound variables
+	depth   int
 	applied bool // the contract is being applied at a call site (not verified)
 }
 
@@ -223,7 +223,12 @@ func (c *cenv) eval(x ast.Expr) Val {
 			ms := e.sortOfT(base.Typ)
 			mp := base.Typ.Underlying().(*types.Map)
 			k := c.coerce(idx, mp.Key())
-			return e.wrapTerm(mp.Elem(), fmt.Sprintf("(select (val_%s %s) %s)", ms, e.term(c.st(), base), e.term(c.st(), k)))
+			mt, kt := e.term(c.st(), base), e.term(c.st(), k)
+			// Go semantics: the element's zero value when the key is absent (same term shape as the executor's lookup)
+			has := fmt.Sprintf("(select (dom_%s %s) %s)", ms, mt, kt)
+			val := fmt.Sprintf("(select (val_%s %s) %s)", ms, mt, kt)
+			zv := e.term(c.st(), e.zero(c.st(), mp.Elem()))
+			return e.wrapTerm(mp.Elem(), tIte(has, val, zv))
 		}
 		it := c.coerce(idx, types.Typ[types.Int])
 		save := e.specMode
@@ -725,6 +730,9 @@ func (c *cenv) call(n *ast.CallExpr) Val {
 			if v.K == kIface && types.Identical(v.Inner.Typ, t) {
 				return *v.Inner
 			}
+			if v.K != kIface && v.Typ != nil && types.Identical(v.Typ, t) {
+				return v // already a value of that type
+			}
 			return e.wrapTerm(t, e.unbox(c.st(), e.term(c.st(), v), t))
 		case "u64":
 			v := c.coerce(c.eval(n.Args[0]), types.Typ[types.Uint64])
@@ -900,6 +908,16 @@ func (c *cenv) call(n *ast.CallExpr) Val {
 				}
 			}
 			return termVal(boolT, sBool, "false")
+		case "mapHas":
+			m := c.deref(c.eval(n.Args[0]))
+			kk := c.eval(n.Args[1])
+			mp, ok := m.Typ.Underlying().(*types.Map)
+			if !ok {
+				return c.errf("mapHas: not a map")
+			}
+			kk = c.coerce(kk, mp.Key())
+			ms := e.sortOfT(m.Typ)
+			return termVal(boolT, sBool, fmt.Sprintf("(select (dom_%s %s) %s)", ms, e.term(c.st(), m), e.term(c.st(), kk)))
 		case "append":
 			a := c.eval(n.Args[0])
 			b := c.eval(n.Args[1])
@@ -1311,7 +1329,7 @@ func (c *cenv) runSpec(f func(st *State) []Out, name string) Val {
 	if len(good) == 1 {
 		o := good[0]
 		adopt(o, true)
-		return o.res
+		return untuple1(o.res)
 	}
 	// merge by ite over path conditions
 	n0 := len(base.pc)
@@ -1326,7 +1344,15 @@ func (c *cenv) runSpec(f func(st *State) []Out, name string) Val {
 		}
 		res = c.iteVal(cond, c.termify(o.st, o.res), res)
 	}
-	return res
+	return untuple1(res)
+}
+
+// untuple1: an intrinsic called with a one-element result tuple types its value by the element.
+func untuple1(v Val) Val {
+	if tp, ok := v.Typ.(*types.Tuple); ok && tp.Len() == 1 && v.K != kTuple {
+		v.Typ = tp.At(0).Type()
+	}
+	return v
 }
 
 func (c *cenv) termify(st *State, v Val) Val {
